@@ -2,7 +2,11 @@
 package props
 
 import (
+	_ "verif/harness/props/c07"
+	_ "verif/harness/props/c08"
 	_ "verif/harness/props/c09"
+	_ "verif/harness/props/c10"
+	_ "verif/harness/props/c11"
 	_ "verif/harness/props/c12"
 	_ "verif/harness/props/c15"
 )
